@@ -423,6 +423,9 @@ func (m *interp) exec(s *stmt, env *menv, pending *[]mval) ctl {
 		case 17:
 			m.feat["metamethod-error"] = true
 			m.raise(mval{})
+		case 18:
+			m.feat["hook-error"] = true
+			m.raise(mval{k: vTbl, i: 906})
 		}
 		m.raise(m.lineErr(s.line, "ERR"))
 	}
